@@ -3,7 +3,7 @@
 # usage: build.sh [repo]   (default /repo)  -> /verif/.build/sim.test
 set -e
 REPO=${1:-${VERIF_REPO:-/repo}}
-V=/verif
+V=$(cd "$(dirname "$0")" && pwd)
 B=$V/.build
 export GOFLAGS=-mod=mod GOPROXY=off GOSUMDB=off GOTOOLCHAIN=local GOCACHE=$V/.cache/go-build
 mkdir -p $B $V/.cache
